@@ -870,8 +870,8 @@ class QueryBuilder(Selectable, Term):  # type:ignore[misc]
 
         conflict_query = " ON CONFLICT"
         if self._on_conflict_fields:
-            # a conflict target names an existing column: an alias defines nothing here
-            on_conflict_ctx = ctx.copy(with_alias=False)
+            # a conflict target names an existing column of the target table: no alias, no qualifier
+            on_conflict_ctx = ctx.copy(with_alias=False, with_namespace=False)
             fields = [
                 f.get_sql(on_conflict_ctx)  # type:ignore[union-attr]
                 for f in self._on_conflict_fields
